@@ -71,6 +71,7 @@ type Result struct {
 	Masks    int     `json:"masks"`
 	Items    int     `json:"items"`
 	DurUS    int64   `json:"dur_us"`
+	SleepNS  int64   `json:"sleep_ns,omitempty"` // longest Nanosleep the host requested
 }
 
 const (
@@ -205,14 +206,22 @@ func must(err error) {
 	}
 }
 
+// sleepNS: the longest sleep the host asked for during the current case (the harness never sleeps).
+var sleepNS int64
+
 func (e *childEnv) exec(c Case) Result {
+	sleepNS = 0
 	rt, cm := e.runtime(c.Engine)
 	cfg := wazero.NewModuleConfig().WithName("").WithStartFunctions().
 		WithArgs(hostArgs...).
 		WithStdin(bytes.NewReader([]byte(stdinContent))).WithStdout(io.Discard).WithStderr(io.Discard).
 		WithWalltime(func() (int64, int32) { return wallSec, wallNsec }, wallRes).
 		WithNanotime(func() int64 { return monoNanos }, monoRes).
-		WithNanosleep(func(int64) {}).WithOsyield(func() {}).
+		WithNanosleep(func(ns int64) {
+			if ns > sleepNS {
+				sleepNS = ns
+			}
+		}).WithOsyield(func() {}).
 		WithRandSource(&counterReader{})
 	for _, kv := range hostEnv {
 		cfg = cfg.WithEnv(kv[0], kv[1])
@@ -261,6 +270,7 @@ func (e *childEnv) exec(c Case) Result {
 	t0 := time.Now()
 	out, cerr := f.Call(e.ctx, c.Args...)
 	res.DurUS = time.Since(t0).Microseconds()
+	res.SleepNS = sleepNS
 	runtime.ReadMemStats(&ms1)
 	res.Alloc = ms1.TotalAlloc - ms0.TotalAlloc
 	if cerr != nil {
